@@ -1,6 +1,7 @@
 """C09 - literal encoding: accepted => canonical bits of exactly the parameter's size, otherwise refused without panic.
 
 L1  the gate (is_of_type) compares the numeric payload it accepts with the range of the type (the writer truncates)
+L1b range gates (is_of_type, check_or_constrain_*) never compare a lossy cast of the payload
 L2  positional pairings of literal children with type children carry a length equality test
 L3  struct field order: the writer lays fields out in definition order; the gate iterates the definition
 L4  gate / writer / reader / compiler share the layout helpers; fixed-width setters use the width of their type
@@ -100,6 +101,61 @@ def rule_l1(ctx):
                 res.bad(Finding("L1", IS_OF_TYPE, site,
                                 "the payload of Literal::%s is accepted without being compared with the type's %s: as_bits keeps only the low bits, so an out-of-range value is silently truncated" % (variant, bnd),
                                 ctx.fn(IS_OF_TYPE)["sp"]))
+    return res
+
+
+INT_RANGE = {"u8": (0, 2**8 - 1), "u16": (0, 2**16 - 1), "u32": (0, 2**32 - 1), "u64": (0, 2**64 - 1), "usize": (0, 2**64 - 1),
+             "i8": (-2**7, 2**7 - 1), "i16": (-2**15, 2**15 - 1), "i32": (-2**31, 2**31 - 1), "i64": (-2**63, 2**63 - 1), "isize": (-2**63, 2**63 - 1),
+             "u128": (0, 2**128 - 1), "i128": (-2**127, 2**127 - 1)}
+
+
+def rule_l1b(ctx):
+    res = RuleResult("L1b", "range gates compare the literal payload itself, never a lossy cast of it")
+    gates = [f for f in ctx.facts["fns"] if "mir" in f and f["kind"] in ("fn", "assoc_fn") and
+             (mir.last_seg(f["id"]).startswith("check_or_constrain_") or f["id"] == IS_OF_TYPE)]
+    if len(gates) < 3:
+        raise AnchorMissing("L1b: expected check_or_constrain_signed / _unsigned and is_of_type, found %r" % [g["id"] for g in gates])
+    for g in gates:
+        n_cmp = 0
+        for body in bodies_with_closures(ctx, g["id"]):
+            # comparisons on payloads (for the guard exemption)
+            guarded = []
+            for b, blk in enumerate(body.blocks):
+                for st in blk["stmts"]:
+                    if st["k"] == "assign" and st["rv"]["k"] == "binop" and st["rv"]["op"] in CMP:
+                        for side in ("l", "r"):
+                            for (f, r, p) in ctx.lifted_trace(body, st["rv"][side], through={}):
+                                if r == SELF1 and any(x in ("as NumUnsigned", "as NumSigned") for x in p):
+                                    guarded.append((b, (f, r, p)))
+                                    n_cmp += 1
+            for b, blk in enumerate(body.blocks):
+                if blk["cleanup"]:
+                    continue
+                for st in blk["stmts"]:
+                    if st["k"] != "assign" or st["rv"]["k"] != "cast" or not st["rv"]["kind"].startswith("IntToInt"):
+                        continue
+                    op = st["rv"]["op"]
+                    if op["k"] not in ("copy", "move"):
+                        continue
+                    src_ty = op["place"]["ty"]
+                    dst_ty = st["rv"]["ty"]
+                    if src_ty not in INT_RANGE or dst_ty not in INT_RANGE:
+                        continue
+                    lo, hi = INT_RANGE[src_ty]
+                    dlo, dhi = INT_RANGE[dst_ty]
+                    if dlo <= lo and hi <= dhi:
+                        continue  # lossless
+                    pay = [(f, r, p) for (f, r, p) in ctx.lifted_trace(body, op, through={})
+                           if r == SELF1 and any(x in ("as NumUnsigned", "as NumSigned") for x in p)]
+                    if not pay:
+                        continue
+                    if any(body.dominates(gb, b) and gp in pay for (gb, gp) in guarded if gb != b):
+                        res.ok({"function": body.id, "cast": "%s as %s" % (src_ty, dst_ty), "verdict": "payload range-checked before the cast"})
+                        continue
+                    res.bad(Finding("L1b", body.id, "payload cast %s as %s before its range check" % (src_ty, dst_ty),
+                                    "the literal's number is converted with a wrapping `as` cast before it is compared with the bounds: values outside %s alias values inside" % dst_ty,
+                                    st["sp"]))
+        res.ok({"function": g["id"], "payload_comparisons": n_cmp, "verdict": "no lossy payload cast"}) if not any(x.fn.startswith(g["id"]) for x in res.findings) else None
     return res
 
 
@@ -361,4 +417,4 @@ def rule_l6(ctx):
 
 
 def run(ctx):
-    return ctx.run_rules([rule_l1, rule_l2, rule_l3, rule_l4, rule_l5, rule_l6])
+    return ctx.run_rules([rule_l1, rule_l1b, rule_l2, rule_l3, rule_l4, rule_l5, rule_l6])
